@@ -104,9 +104,29 @@ theorem C11_code_data_encode (z : S2) (hz : S2Law z) (es : List Entry) (hv : ∀
   obtain ⟨raw, hraw, rfl⟩ := Option.map_eq_some_iff.mp hb
   exact C11_data_roundtrip z hz es raw hraw hv
 
+/-- the Go code itself, both directions (`Data.Encode` and `Data.Decode`, translated from /repo on every run): decoding what the
+    encoder returned gives back exactly the entries — keys (whatever prefix they share with the previous key), values,
+    tombstone flags, versions — for every entry list whose keys and values fit the 16-bit length fields; a list with a larger
+    key or value is refused by the encoder -/
+theorem C11_code_data_roundtrip (z : S2) (hz : S2Law z) (es : List Entry) (hv : ∀ e ∈ es, e.version < 2 ^ 64) :
+    (∀ b, GenCodec.encodeData z.comp es = some b → GenCodec.decodeData z.decomp b [] = some (es.map CodecTie.toT)) ∧
+    ((∀ e ∈ es, e.key.length ≤ 65535 ∧ e.value.length ≤ 65535) → ∃ b, GenCodec.encodeData z.comp es = some b) := by
+  refine ⟨fun b h => CodecTie.code_roundtrip z hz es hv b h, fun hw => ?_⟩
+  have := (C11_code_data_encode z hz es hv).1.mpr hw
+  exact Option.isSome_iff_exists.mp this
+
+/-- the translated decoder is the model's decoder on every input (also corrupt ones; Go's `prevKey[:lcp]` panics when `lcp`
+    exceeds the previous key, where the translation and the model take what is there — no encoder output does that) -/
+theorem C11_code_data_decode (decomp : Bytes → Option Bytes) (data : Bytes) :
+    GenCodec.decodeData decomp data [] =
+      (decomp data).bind fun raw => (decData (raw.length + 1) [] raw).map fun es => es.map CodecTie.toT := by
+  rw [CodecTie.decodeData_eq]; simp
+
 #print axioms C11_data_guard
 #print axioms C11_data_roundtrip
 #print axioms C11_code_data_encode
+#print axioms C11_code_data_roundtrip
+#print axioms C11_code_data_decode
 #print axioms C11_index_roundtrip
 #print axioms C11_footer_roundtrip
 #print axioms C11_footer_magic
